@@ -37,8 +37,8 @@ def _wcase(cap, ops, ctr=[0]):
     out = []
     k = 1
     for o in ops:
-        if o[0] == 'a':
-            out.append('a' + (''.join('%02x' % (1 + ((k + i) % 250)) for i in range(o[1])) if o[1] else '-'))
+        if o[0] in 'abcd':
+            out.append(o[0] + (''.join('%02x' % (1 + ((k + i) % 250)) for i in range(o[1])) if o[1] else '-'))
             k += o[1]
         elif o[0] == 'n':
             out.append('n%d' % o[1])
@@ -75,6 +75,12 @@ def gen_cases(tier, rng):
         for nops in range(1, maxops + 1):
             for seq in itertools.product(wops, repeat=nops):
                 cases.append(_wcase(cap, list(seq) + [('f',)]))
+        # the same histories with the data handed over through pointers to wider types (length in bytes)
+        for ptr in 'bcd':
+            pops = [(ptr, l) for l in range(0, cap + 3)] + [('f',)]
+            for nops in range(1, min(maxops, 3) + 1):
+                for seq in itertools.product(pops, repeat=nops):
+                    cases.append(_wcase(cap, list(seq) + [('f',)]))
     # random longer histories on the larger capacities
     nrand = 400 if tier == 'quick' else 4000
     for _ in range(nrand):
@@ -206,7 +212,7 @@ def spec_check(case, ir, mr):
             return 'unexpected result ' + r
         _, buffered, delta = r.split(':')
         buffered = int(buffered)
-        if o[0] == 'a':
+        if o[0] in 'abcd':
             blk = _unhex(o[1:])
             appended += blk
         sunk += _unhex(delta)
@@ -216,7 +222,7 @@ def spec_check(case, ir, mr):
             return 'sink content + buffered bytes is not what was appended'
         if o[0] == 'f' and buffered != 0:
             return 'flush left data in the buffer'
-        if o[0] == 'a' and len(_unhex(o[1:])) >= cap and buffered != 0:
+        if o[0] in 'abcd' and len(_unhex(o[1:])) >= cap and buffered != 0:
             return 'oversized block was not passed through'
     return None
 
